@@ -334,7 +334,15 @@ func c11Run(plan c11Plan) c11CaseRec {
 			}
 			res := rep.DeliverTx(tx)
 			ok := res.Code == 0
-			feeFail := !ok && res.GasUsed == 0
+			// the fee step is the cause of a failure only if the account cannot afford 0.01 OLT after the
+			// handler's debit (a Validate rejection also reports GasUsed = 0 since fix d276709)
+			afford := new(big.Int).Set(balBefore)
+			if t.Kind == "stake" {
+				if z, okz := new(big.Int).SetString(t.Amount, 10); okz && z.Sign() >= 0 && z.BitLen() < 64 {
+					afford.Sub(afford, new(big.Int).Mul(z, new(big.Int).Exp(big.NewInt(10), big.NewInt(18), nil)))
+				}
+			}
+			feeFail := !ok && res.GasUsed == 0 && afford.Cmp(new(big.Int).Exp(big.NewInt(10), big.NewInt(16), nil)) < 0
 			balAfter := c11Bal(rep.View(), signer.Stake.Addr)
 			dbal := new(big.Int).Sub(balAfter, balBefore)
 			if ok {
